@@ -325,6 +325,9 @@ fn c_boxed(c: &Case, rep: &mut Rep) {
     }
 }
 
+/// Set in the interpreter (Miri) tier: observers skip the expensive operations.
+static LIGHT: std::sync::atomic::AtomicBool = std::sync::atomic::AtomicBool::new(false);
+
 /// Observers every BoxedUint must support whatever public constructor produced it.
 fn observe(rep: &mut Rep, tag: &str, v: &BoxedUint) {
     let n = |s: &str| format!("{}->{}", tag, s);
@@ -355,6 +358,14 @@ fn observe(rep: &mut Rep, tag: &str, v: &BoxedUint) {
     np(rep, &n("overflowing_shl"), || (v.overflowing_shl(0), v.overflowing_shr(0), v.overflowing_shl(1), v.overflowing_shr(1)));
     np(rep, &n("shl_vartime"), || (v.shl_vartime(0), v.shr_vartime(0), v.shl_vartime(1), v.shr_vartime(1)));
     np(rep, &n("wrapping_shl"), || (v.wrapping_shl(1), v.wrapping_shr(1), v.wrapping_shl_vartime(1), v.wrapping_shr_vartime(1)));
+    if LIGHT.load(std::sync::atomic::Ordering::Relaxed) {
+        np(rep, &n("as_words_mut"), || {
+            let mut t = v.clone();
+            t.as_words_mut().iter_mut().for_each(|w| *w ^= 1);
+            t.as_limbs_mut().len()
+        });
+        return;
+    }
     np(rep, &n("checked_sqrt"), || (v.checked_sqrt(), v.checked_sqrt_vartime()));
     np(rep, &n("inv_mod"), || v.inv_mod(v));
     np(rep, &n("inv_mod2k"), || (v.inv_mod2k(0), v.inv_mod2k_vartime(0)));
@@ -479,8 +490,18 @@ fn c_decode(c: &Case, rep: &mut Rep) {
 
 pub fn workload(ctx: &mut Ctx) {
     const KS: [u64; 12] = [0, 1, 63, 64, 65, 127, 128, 255, 256, 257, 1 << 31, u32::MAX as u64];
-    for &l in &[1usize, 2, 4, 8] {
-        for _ in 0..ctx.iters(40_000) {
+    let miri = ctx.tier == Tier::Miri;
+    LIGHT.store(miri, std::sync::atomic::Ordering::Relaxed);
+    let widths: &[usize] = if miri { &[1, 2] } else { &[1, 2, 4, 8] };
+    let t0 = std::time::Instant::now();
+    let stage = |name: &str| {
+        if miri {
+            eprintln!("[miri stage] {} at {:.0}s", name, t0.elapsed().as_secs_f64());
+        }
+    };
+    for &l in widths {
+        stage("uint/int");
+        for _ in 0..(if miri { 2 } else { ctx.iters(40_000) }) {
             let x = match ctx.rng.below(6) {
                 0 => gn::zero(l),
                 1 => gn::one(l),
@@ -509,12 +530,14 @@ pub fn workload(ctx: &mut Ctx) {
             ctx.exec(Case::new(op).w(l).a(x).a(y).s(k).s(r), f);
         }
     }
-    for _ in 0..ctx.iters(60_000) {
+    stage("limb");
+    for _ in 0..(if miri { 3 } else { ctx.iters(60_000) }) {
         let (a, b, k) = (gn::limb(&mut ctx.rng), gn::limb(&mut ctx.rng), *ctx.rng.pick(&KS));
         ctx.exec(Case::new("total.limb").s(a).s(b).s(k), c_limb);
     }
-    for _ in 0..ctx.iters(60_000) {
-        let l = 1 + ctx.rng.usize_below(9);
+    stage("boxed");
+    for _ in 0..(if miri { 1 } else { ctx.iters(60_000) }) {
+        let l = 1 + ctx.rng.usize_below(if miri { 1 } else { 9 });
         let x = match ctx.rng.below(6) {
             0 => gn::zero(l),
             1 => gn::one(l),
@@ -540,16 +563,17 @@ pub fn workload(ctx: &mut Ctx) {
         let r = gn::limb(&mut ctx.rng);
         ctx.exec(Case::new("total.boxed").w(l).a(x).a(y).s(k).s(r), c_boxed);
     }
+    stage("ctor");
     // constructors: enumerate sizes 0..=3 limbs x precisions 0..=130 (partitioned), random contents
     for nl in 0..=3usize {
         for bitsp in 0..=130u64 {
             if !ctx.mine() {
                 continue;
             }
-            if ctx.tier == Tier::Miri && ![0, 1, 64, 65, 130].contains(&bitsp) {
+            if miri && (nl > 1 || ![0, 65].contains(&bitsp)) {
                 continue;
             }
-            for variant in 0..3 {
+            for variant in 0..(if miri { 1 } else { 3 }) {
                 let v: Vec<u64> = match variant {
                     0 => vec![0; nl],
                     1 => vec![u64::MAX; nl],
@@ -560,7 +584,8 @@ pub fn workload(ctx: &mut Ctx) {
             }
         }
     }
-    for _ in 0..ctx.iters(60_000) {
+    stage("decode");
+    for _ in 0..(if miri { 6 } else { ctx.iters(60_000) }) {
         let len = match ctx.rng.below(4) {
             0 => 0,
             1 => ctx.rng.usize_below(6),
@@ -596,4 +621,5 @@ pub fn workload(ctx: &mut Ctx) {
         let r = ctx.rng.u64();
         ctx.exec(Case::new("total.decode").s(p).s(r).b(bytes), c_decode);
     }
+    stage("done");
 }
